@@ -7192,7 +7192,12 @@ fn widen_folded_breaks(decoded: &str, explicit_indent_used: bool) -> Cow<'_, str
             result.push_str(&decoded[run_start..i - 1]);
         } else {
             result.push_str(&decoded[run_start..i]);
-            if !is_trailing_run {
+            // A run that opens the scalar has no line before it to be folded
+            // into: its breaks are empty lines, each one read back as
+            // itself, so widening it would add a `\n` (`"\na"` written as
+            // `>-\n\n\n  a` is `"\n\na"`).
+            let is_leading_run = run_start == 0;
+            if !is_trailing_run && !is_leading_run {
                 let next_more_indented = matches!(bytes.get(i), Some(b' ' | b'\t'));
                 if !prev_more_indented && !next_more_indented {
                     result.push('\n');
@@ -8771,6 +8776,23 @@ mod tests {
              k: >-\n  folded here\n\
              l: |-\n  -foo"
         );
+    }
+
+    #[test]
+    fn test_stream_yaml_folded_scalar_leading_blank_lines_are_not_widened() {
+        // The breaks that open a folded scalar follow no line, so nothing
+        // folds them: two empty lines are `\n\n`, and writing a third reads
+        // back as `\n\n\n`. The break between `a` and `b` still needs its
+        // blank line.
+        let yaml = b"k: >-\n\n\n  a\n\n  b\nz: 1\n";
+        let index = YamlIndex::build(yaml).unwrap();
+        let mut out = String::new();
+        index
+            .root(yaml)
+            .stream_yaml_document(&mut out, IndentSpec::spaces(2), false)
+            .unwrap();
+        assert_eq!(out, "k: >-\n\n\n  a\n\n  b\nz: 1");
+        assert_eq!(widen_folded_breaks("\n\na\nb", false), "\n\na\n\nb");
     }
 
     #[test]
